@@ -93,6 +93,7 @@ type config struct {
 type sut struct {
 	cfg      config
 	bl       local.BlockList
+	dev      *hx.MemDevice // record array device ("dev" backend)
 	klm      local.KeyLocationMap
 	blocks   int
 	released int
@@ -109,12 +110,14 @@ func keyOf(id int) local.Key {
 func newSut(cfg config) *sut {
 	bl := local.NewVolatileBlockList(local.NewInMemoryBlockAllocator(16))
 	var arr local.LocationRecordArray
+	var dev *hx.MemDevice
 	if cfg.backend == "dev" {
-		arr = local.NewBlockDeviceBackedLocationRecordArray(hx.NewMemDevice(cfg.records*local.BlockDeviceBackedLocationRecordSize), bl)
+		dev = hx.NewMemDevice(cfg.records * local.BlockDeviceBackedLocationRecordSize)
+		arr = local.NewBlockDeviceBackedLocationRecordArray(dev, bl)
 	} else {
 		arr = local.NewInMemoryLocationRecordArray(cfg.records, bl)
 	}
-	return &sut{cfg: cfg, bl: bl,
+	return &sut{cfg: cfg, bl: bl, dev: dev,
 		klm: local.NewHashingKeyLocationMap(arr, cfg.records, cfg.hashInit, uint32(cfg.maxGet), cfg.maxPut, storageType)}
 }
 
@@ -165,6 +168,17 @@ func (s *sut) exec(or *outcomeReader, line string) string {
 			return "error:" + status.Code(err).String()
 		}
 		return or.delta(before)
+	case "putf": // a store whose first record read fails with an I/O error (block device backend)
+		if n(2) >= s.blocks || s.dev == nil {
+			return "bad-op"
+		}
+		s.dev.FailRead = func(int64, int) error { return status.Error(codes.Internal, "record device read failed") }
+		err := s.klm.Put(keyOf(n(1)), local.Location{BlockIndex: n(2), OffsetBytes: int64(n(3)), SizeBytes: int64(n(4))})
+		s.dev.FailRead = nil
+		if err != nil {
+			return "error:" + status.Code(err).String()
+		}
+		return "stored-despite-read-error"
 	case "get":
 		r, _ := s.get(n(1))
 		return r
@@ -295,6 +309,22 @@ func runCase(run *hx.Run, or *outcomeReader, model *hx.Model, name string, scrip
 				fail("after storing an entry its key does not resolve to the newer of old and new location",
 					fmt.Sprintf("%q (outcome %s): before %s after %s", line, out, showOpt(b), showOpt(a)))
 			}
+		case "putf":
+			declare(n(1))
+			if n(2) >= s.blocks || s.dev == nil {
+				continue
+			}
+			before := snapshot()
+			out := emit(line)
+			after := snapshot()
+			if !strings.HasPrefix(out, "error:") {
+				fail("a store whose record read failed with an I/O error reported success", fmt.Sprintf("%q -> %s", line, out))
+			}
+			for k := range keys {
+				if !optEq(before[k], after[k]) {
+					fail("a store that could not read the record slot changed the lookup result of a key", fmt.Sprintf("%q: key %d: %s -> %s", line, k, showOpt(before[k]), showOpt(after[k])))
+				}
+			}
 		case "get":
 			declare(n(1))
 			emit(line)
@@ -394,6 +424,8 @@ func genScript(r *hx.Rand, nops int) []string {
 				b = r.Intn(blocks)
 			}
 			script = append(script, fmt.Sprintf("put %d %d %d %d", r.Intn(nkeys), b, offs[r.Intn(len(offs))], r.Intn(4)))
+		case x < 59 && blocks > 0 && backend == "dev":
+			script = append(script, fmt.Sprintf("putf %d %d %d %d", r.Intn(nkeys), blocks-1, offs[r.Intn(len(offs))], r.Intn(4)))
 		case x < 80:
 			script = append(script, fmt.Sprintf("get %d", r.Intn(nkeys)))
 		case x < 90:
